@@ -97,6 +97,11 @@ func upLayouts(tier string, second bool) []upLayout {
 					// two files at two slots
 					out = append(out, upLayout{Ops: []upOp{op}, Files: []upFile{{Name: "a.txt", Content: content, Paths: []string{op.Slots[i]}}, {Name: "b.bin", Content: "B" + content, Paths: []string{op.Slots[j]}}},
 						Desc: fmt.Sprintf("op%d 2 files at %s and %s", oi, op.Slots[i], op.Slots[j])})
+					// two different files that happen to carry the same name (image.jpg, blob)
+					if content == "a" {
+						out = append(out, upLayout{Ops: []upOp{op}, Files: []upFile{{Name: "image.jpg", Content: "FRONT", Paths: []string{op.Slots[i]}}, {Name: "image.jpg", Content: "BACK SIDE", Paths: []string{op.Slots[j]}}},
+							Desc: fmt.Sprintf("op%d 2 files of one name at %s and %s", oi, op.Slots[i], op.Slots[j])})
+					}
 				}
 			}
 		}
